@@ -108,13 +108,17 @@ type caps struct{ txids, snaps, derived int }
 
 // postRun applies the C01/C02/snapshot oracles to one main database after the
 // stress child has exited.
-func postRun(res *vf.Result, mf MainFinal, scratch string, cp caps, resets []float64, root string) {
+func postRun(res *vf.Result, mf MainFinal, scratch string, cp caps, resets []float64, interrupted, root string) {
 	// A run in which ResetLocalState was called on this database is a
 	// different witness class (TXIDs can be re-issued with other content).
 	sfx, note := "", ""
 	if len(resets) > 0 {
 		sfx = ":after-ResetLocalState"
 		note = fmt.Sprintf(" [ResetLocalState returned nil on this database at t=%.1fs]", resets[0])
+	}
+	if sfx == "" && interrupted != "" {
+		sfx = ":after-interrupted-checkpoint"
+		note = " [a non-PASSIVE checkpoint failed after wal_checkpoint had run: " + interrupted + "]"
 	}
 	note += root
 	ctx := context.Background()
